@@ -26,7 +26,7 @@ namespace AwsVerif.Threads
 inductive Action where
   /-- `aws_thread_launch` of slot `k`; `pin`: options->cpu_id >= 0; `nfail`: how many of this launch's
       `pthread_create` calls fail with EINVAL (a cpu that cannot be honoured) -/
-  | launch (k : Nat) (pin : Bool) (nfail : Nat)
+  | launch (k : Nat) (pin : Bool) (nfail : Nat) (named : Bool)   -- `named`: options->name is non-empty
   | join (k : Nat)
   | cleanup (k : Nat)
   | atexit (cb : Nat)
@@ -81,7 +81,8 @@ inductive Instr where
   | waitForPred
   -- sync
   | lock | unlock | signal
-  | create (k : Nat) (pin : Bool) (nfail : Nat)
+  | create (k : Nat) (pin : Bool) (nfail : Nat) (named : Bool)
+  | createRet (k : Nat)      -- pthread_create has returned to its caller (the new thread may already have run)
   | joinM (k : Nat)          -- pthread_join from join_and_free_wrapper_list
   | joinU (k : Nat)          -- pthread_join from aws_thread_join on the user's handle
   | detach (k : Nat)
@@ -90,7 +91,8 @@ inductive Instr where
   | sleepUntil (u : Nat)
   | yield
   -- local
-  | allocW (k : Nat) | freeW (k : Nat)
+  | allocW (k : Nat) (named : Bool)   -- wrapper block (+ the aws_string copy of the name)
+  | freeW (k : Nat) (named : Bool)    -- s_thread_wrapper_destroy: wrapper (+ the name if still attached)
   | incCount | decCount
   | logLaunch (k err : Nat)
   | logJoin (k : Nat)
@@ -112,6 +114,8 @@ structure Th where
   waitSeq : Nat := 0
   wFunc : Nat := 0
   wArg : Nat := 0
+  named : Bool := false        -- wrapper->name still attached (freed at the top of thread_fn)
+  copyId : Option Nat := none  -- wrapper->thread_copy.thread_id, written by the thread itself at the top of thread_fn
   rErr : Nat := 0
   rVal : Nat := 0
   rTo : Nat := 0
@@ -141,7 +145,8 @@ structure State where
   creates : Nat := 0
   waitCtr : Nat := 0
   hstate : Nat → HState := fun _ => .notCreated
-  wLive : Nat := 0      -- heap blocks holding a `struct thread_wrapper`
+  wLive : Nat := 0      -- heap blocks: `struct thread_wrapper`s and the name strings attached to them
+  misuse : Nat := 0     -- pthread_join calls on an id that is not the thread's (ESRCH)
   cbLive : Nat := 0
   log : List Ev := []
   wlog : List WEv := []
@@ -182,8 +187,8 @@ def launchedManaged (P : Prog) (s : State) : Nat → List Nat
 
 /-- expansion of one user action into micro-instructions (evaluated when the action is reached) -/
 def expand (P : Prog) (s : State) (_t : Nat) : Action → List Instr
-  | .launch k pin nf =>
-    [.allocW k] ++ (if P.managed k then [.lock, .incCount, .unlock] else []) ++ [.create k pin nf]
+  | .launch k pin nf nm =>
+    [.allocW k nm] ++ (if P.managed k then [.lock, .incCount, .unlock] else []) ++ [.create k pin nf nm]
   | .join k => if s.hstate k = .joinable then [.joinU k] else [.logJoin k]
   | .cleanup k => if s.hstate k = .joinable then [.detach k] else []
   | .atexit _ => []            -- handled directly (purely local)
@@ -197,7 +202,7 @@ def expand (P : Prog) (s : State) (_t : Nat) : Action → List Instr
 def handOverCode : List Instr := [.lock, .pjaSwapPush]
 
 def Instr.isSync : Instr → Bool
-  | .lock | .unlock | .signal | .create _ _ _ | .joinM _ | .joinU _ | .detach _ | .cwait _ | .cwake
+  | .lock | .unlock | .signal | .create _ _ _ _ | .createRet _ | .joinM _ | .joinU _ | .detach _ | .cwait _ | .cwake
   | .sleepUntil _ | .yield => true
   | _ => false
 
@@ -209,8 +214,8 @@ def pushW (s : State) (e : WEv) : State := { s with wlog := e :: s.wlog }
 def pushLog (s : State) (e : Ev) : State := { s with log := e :: s.log }
 
 /-- `s_thread_wrapper_destroy`; the invariant shows wLive ≥ 1 here (never a free without a live wrapper) -/
-def freeWrapper (s : State) (_k : Nat) : State :=
-  { s with wLive := s.wLive - 1 }
+def freeWrapper (s : State) (n : Nat) : State :=
+  { s with wLive := s.wLive - n }
 
 /-- one micro-instruction `i` of thread `t` (its continuation is `rest`); `none` = not enabled -/
 def exec (P : Prog) (s : State) (t : Nat) (i : Instr) (rest : List Instr) : Option State :=
@@ -223,7 +228,7 @@ def exec (P : Prog) (s : State) (t : Nat) (i : Instr) (rest : List Instr) : Opti
   | .act a => some (cont s t me (expand P s t a ++ rest))
   | .joinAndFree [] => some (cont s t me rest)
   | .joinAndFree (k :: l) =>
-    some (cont s t me ([.joinM k, .freeW k, .lock, .decCount, .signal, .unlock, .joinAndFree l] ++ rest))
+    some (cont s t me ([.joinM k, .freeW k false, .lock, .decCount, .signal, .unlock, .joinAndFree l] ++ rest))
   | .jaLoop =>
     some (cont s t me ([.lock, (if me.rTs > 0 then Instr.waitForPredInit else Instr.waitPred), .jaCheck] ++ rest))
   | .waitPred =>
@@ -249,18 +254,18 @@ def exec (P : Prog) (s : State) (t : Nat) (i : Instr) (rest : List Instr) : Opti
   | .incCount => some (cont { s with count := s.count + 1 } t me rest)
   -- `--s_unjoined_thread_count` (uint32_t): the invariant shows count ≥ 1 here, so no wrap-around is modelled
   | .decCount => some (cont { s with count := s.count - 1 } t me rest)
-  | .allocW _ =>
-    some (cont { s with wLive := s.wLive + 1 } t me rest)
-  | .freeW k => some (cont (freeWrapper s k) t me rest)
-  | .create k pin nf =>
+  | .allocW _ nm =>
+    some (cont { s with wLive := s.wLive + 1 + nm.toNat } t me rest)
+  | .freeW _ nm => some (cont (freeWrapper s (1 + nm.toNat)) t me rest)
+  | .create k pin nf nm =>
     -- pthread_create and the local tail of aws_thread_launch that depends on its result: on failure the count
     -- is rolled back and the wrapper destroyed; if a cpu was requested (`pin`) the launch is then attempted
     -- once more without pinning (the recursive aws_thread_launch with cpu_id = -1), otherwise the error is returned
     let s0 := { s with creates := s.creates + 1 }
     let after (e : Nat) : List Instr :=
-      (if P.managed k then [Instr.lock, .decCount, .signal, .unlock] else []) ++ [.freeW k] ++
-      (if pin then [Instr.allocW k] ++ (if P.managed k then [Instr.lock, .incCount, .unlock] else []) ++
-          [.create k false (nf - 1)]
+      (if P.managed k then [Instr.lock, .decCount, .signal, .unlock] else []) ++ [.freeW k nm] ++
+      (if pin then [Instr.allocW k nm] ++ (if P.managed k then [Instr.lock, .incCount, .unlock] else []) ++
+          [.create k false (nf - 1) nm]
        else [.logLaunch k e])
     let hfail := if P.managed k then upd s.hstate k .managed else s.hstate
     if 0 < nf ∨ P.failAt = some s.creates then
@@ -270,16 +275,25 @@ def exec (P : Prog) (s : State) (t : Nat) (i : Instr) (rest : List Instr) : Opti
     else if (s.th k).status ≠ .notCreated ∨ k = 0 ∨ P.n ≤ k ∨ t = k then
       some (cont { s0 with hstate := hfail } t { me with rErr := 22 } (after 22 ++ rest))
     else
-      let child : Th := { status := .created, ord := s.nextOrd, wFunc := k, wArg := k }
-      let s1 := { s0 with th := upd s0.th k child, nextOrd := s.nextOrd + 1,
-                          hstate := upd s.hstate k (if P.managed k then .managed else .joinable) }
-      some (pushW (cont s1 t { me with rErr := 0 } (.logLaunch k 0 :: rest)) (wev s t "create" s!"t{s.nextOrd}" 0))
+      let child : Th := { status := .created, ord := s.nextOrd, wFunc := k, wArg := k, named := nm }
+      let s1 := { s0 with th := upd s0.th k child, nextOrd := s.nextOrd + 1 }
+      some (pushW (cont s1 t { me with rErr := 0 } (.createRet k :: .logLaunch k 0 :: rest))
+        (wev s t "create" s!"t{s.nextOrd}" 0))
+  | .createRet k =>
+    -- back in aws_thread_launch: managed threads stay unjoinable from outside, others become JOINABLE
+    some (pushW (cont { s with hstate := upd s.hstate k (if P.managed k then .managed else .joinable) } t me rest)
+      (wev s t "created" (tname s k) 0))
   | .logLaunch k e => some (pushLog (cont s t me rest) (.launchRet k t e))
   | .joinM k =>
-    if (s.th k).status = .exited ∧ t ≠ k then
-      let s1 := { s with th := upd s.th k { s.th k with status := .joined } }
-      some (pushW (cont s1 t (s1.th t) rest) (wev s t "join" (tname s k) 0))
-    else none
+    -- aws_thread_join(&wrapper->thread_copy): the id joined is the one stored in k's wrapper
+    if (s.th k).copyId = some k then
+      if (s.th k).status = .exited ∧ t ≠ k then
+        let s1 := { s with th := upd s.th k { s.th k with status := .joined } }
+        some (pushW (cont s1 t (s1.th t) rest) (wev s t "join" (tname s k) 0))
+      else none
+    else
+      -- an id that is not k's thread (e.g. still 0): pthread_join fails with ESRCH, nothing is joined
+      some (pushW (cont { s with misuse := s.misuse + 1 } t me rest) (wev s t "join" "t-1" 3))
   | .joinU k =>
     if (s.th k).status = .exited ∧ t ≠ k then
       let s1 := { s with th := upd s.th k { s.th k with status := .joined }, hstate := upd s.hstate k .joinCompleted }
@@ -329,13 +343,16 @@ def exitStep (s : State) (t : Nat) : State :=
 /-- first step of a created thread (top of `thread_fn`): copy the wrapper, call the function -/
 def startStep (P : Prog) (s : State) (t : Nat) : State :=
   let me := s.th t
-  pushW (pushLog { s with th := upd s.th t { me with status := .running, code := (P.body me.wFunc).map Instr.act } }
+  -- top of thread_fn: store the own id into the wrapper's thread copy, apply and release the name
+  pushW (pushLog { s with th := upd s.th t { me with status := .running, code := (P.body me.wFunc).map Instr.act,
+                                                      copyId := some t, named := false },
+                          wLive := s.wLive - me.named.toNat }
     (.run t me.wArg)) (wev s t "start" "-" 0)
 
 /-- the thread function returned: unmanaged threads free their wrapper here -/
 def funcEndStep (P : Prog) (s : State) (t : Nat) : State :=
   let s1 := pushLog { s with th := upd s.th t { s.th t with status := .funcDone } } (.done t)
-  if P.managed t then s1 else freeWrapper s1 t
+  if P.managed t then s1 else freeWrapper s1 1
 
 /-- one iteration of the at-exit loop of `thread_fn` (LIFO), or leaving it -/
 def atexitStep (P : Prog) (s : State) (t : Nat) : State :=
@@ -399,6 +416,6 @@ def AllFinished (P : Prog) (s : State) : Prop :=
 structure WFProgress (P : Prog) : Prop extends WF P where
   joinAllMain : ∀ k, k ≠ 0 → Action.joinAll ∉ P.body k
   joinOnce : ∀ k, ((List.range P.n).flatMap (fun j => (P.body j).filter (· == Action.join k))).length ≤ 1
-  launchOnce : ∀ k, ((List.range P.n).flatMap (fun j => (P.body j).filter (fun a => match a with | .launch k' _ _ => k' == k | _ => false))).length ≤ 1
+  launchOnce : ∀ k, ((List.range P.n).flatMap (fun j => (P.body j).filter (fun a => match a with | .launch k' _ _ _ => k' == k | _ => false))).length ≤ 1
 
 end AwsVerif.Threads
